@@ -97,9 +97,29 @@ func registerHarnessIntrinsics() {
 		},
 		"verifDependsOn": hDependsOn,
 		"verifUF":        hUF,
-		"verifTime":      hTime,
-		"verifTimeIn":    hTime,
-		"verifTimeAt":    hTime,
+		"verifBytesSym":  hBytesSym,
+		"verifDependsOnExact": func(e *Exec, a []Value, s *ssa.CallCommon) Value {
+			name := e.mustConcreteString(a[1], "variable name")
+			vars := map[string]bool{}
+			e.valueVars(a[0], vars, map[interface{}]bool{})
+			return e.tb.Bool(vars[name])
+		},
+		"verifRandStream": func(e *Exec, a []Value, s *ssa.CallCommon) Value {
+			i := e.concLen(a[0].(*Term), "rand stream index")
+			if i < 0 || i >= len(e.randStreams) {
+				panic(pathAbort{"violated", "harness inspects a random read that was not made"})
+			}
+			ts := append([]*Term{}, e.randStreams[i]...)
+			arr := e.mkBytes(ts, e.newObj("intrinsic", "rand-stream"))
+			n := e.c64(int64(len(ts)))
+			return &SliceV{arr: arr, off: e.c64(0), len: n, cap: n}
+		},
+		"verifSkipCase": func(e *Exec, a []Value, s *ssa.CallCommon) Value {
+			panic(pathAbort{"skipped", "case combination not applicable"})
+		},
+		"verifTime":   hTime,
+		"verifTimeIn": hTime,
+		"verifTimeAt": hTime,
 		"verifPrefer": func(e *Exec, a []Value, s *ssa.CallCommon) Value {
 			e.prefers = append(e.prefers, a[0].(*Term))
 			return &TupleV{}
@@ -684,4 +704,23 @@ func hTime(e *Exec, a []Value, s *ssa.CallCommon) Value {
 		lp = &PtrV{c: e.newCell(lt, e.newObj("nondet", "time.Location"), nil)}
 	}
 	return &StructV{F: []Value{wall, ext, lp}}
+}
+
+// verifBytesSym(name, max, spare): a byte slice with symbolic length <= max over a
+// backing array of max+spare arbitrary bytes; capacity = whole array.
+// Variables: <name>.len, <name>[i].
+func hBytesSym(e *Exec, a []Value, s *ssa.CallCommon) Value {
+	name := e.mustConcreteString(a[0], "nondet name")
+	max := e.concLen(a[1].(*Term), "max length")
+	spare := e.concLen(a[2].(*Term), "spare capacity")
+	ln := e.freshVar(name+".len", 64)
+	if e.cfg.Concrete == nil {
+		e.addPCKind(e.tb.Ule(ln, e.c64(int64(max))), 'a')
+	}
+	ts := make([]*Term, max+spare)
+	for i := range ts {
+		ts[i] = e.freshVar(fmt.Sprintf("%s[%d]", name, i), 8)
+	}
+	arr := e.mkBytes(ts, e.newObj("nondet", name))
+	return &SliceV{arr: arr, off: e.c64(0), len: ln, cap: e.c64(int64(max + spare))}
 }
